@@ -10,7 +10,8 @@ def run(rep, kf, tier, seed):
     engine_b.discharge(rep, kf, [cl.get_errors_contract(), cc.from_data_contract(), rb.add_responses_contract(),
                                  rb.body_from_data_contract()], "C07", tier, seed)
     import contracts.registration as creg
-    engine_b.discharge(rep, kf, creg.all_contracts(), "C07", tier, seed)
+    import contracts.fixpoints as cfp
+    engine_b.discharge(rep, kf, creg.all_contracts() + cfp.all_contracts(), "C07", tier, seed)
     run_bounded(rep, kf, "C07", ["body_media", "enum_values", "model_properties", "param_conflicts", "name_collision", "body_refs"], tier)
     rep.trusted.append("pyvc Engine B")
     rep.assumptions.extend([
